@@ -718,9 +718,17 @@ class C12(Check):
             ok_f, got_f = self._call(out, 'is_in_polygon', M.is_in_polygon, poly, ip.astype('f8'), ncaps=ncp)
             ok_i, got_i = self._call(out, 'is_in_polygon', M.is_in_polygon, poly, ip.astype(dt), ncaps=ncp)
             if ok_f and ok_i:
-                out.expect(bool(np.array_equal(np.asarray(got_f), np.asarray(got_i))), 'radec-integer',
-                           'RA/Dec given as %s answered differently from the same positions given as float64 (%d of %d points)'
-                           % (dt, int((np.asarray(got_f) != np.asarray(got_i)).sum()), len(ip)))
+                # Both are held to the definition at the rounded positions; inside the ambiguity band the two may
+                # differ legitimately (whole-degree points sit exactly ON boundaries of axis caps, and numpy
+                # converts int16 degrees through float32: angle error <= 2.4e-7 rad at 360 deg -> float32 band).
+                ib = max(band, R.BAND_F32) if dt == 'int16' else band
+                st_i, _ = R.polygon_status(x, cm, use, ncp, R.to_ld_points(ip), ib, ctol)
+                self._cmp_bool(out, 'radec-integer', got_i, st_i, ip.tolist(), dtype=dt, use=use, ncaps=ncp)
+                dec = st_i != UND
+                diff = dec & (np.asarray(got_f) != np.asarray(got_i))
+                out.expect(not bool(diff.any()), 'radec-integer',
+                           'RA/Dec given as %s answered differently from the same positions given as float64 (%d of %d '
+                           'decided points)' % (dt, int(diff.sum()), int(dec.sum())))
                 out.count('radec_integer_dtype_cases')
         # --- the same object asked again with other ncaps values (state must not stick to the object)
         table = R.cap_table(x, cm, pts_ld, band, ctol, exact)
